@@ -227,7 +227,8 @@ ADDED7 = {
     "C09": "decode chain of the ephemeral point: from_string hands the decoded coordinates unchanged to from_public_point, which validates against P-256 (callees stubbed, arguments recorded); crafted curve points written with a coordinate >= p",
     "C10": "set_config's framing (shared with C06/C11) and a bounded end-to-end family: the component split by an independent framing reader and decoded, for every way a component can end",
     "C11": "the identifier functions' contract (identifier or exactly their own Missing...NameError) discharged here too; anonymous configurations in the operation sequences",
-    "C12": "the users of the identifier (derive_comments_from_config, derive_auth_blocks_from_config) are obligations here too",
+    "C12": "the users of the identifier (derive_comments_from_config, derive_auth_blocks_from_config) are obligations here too; the identifier object itself (__init__ 9999->None, is_device_settings, is_baltech_naming_scheme, __eq__/__ne__) for every integer field value",
+    "C03": "to_binary is under contract for an object that has ALREADY been written with any earlier content of the same component count (no state of an earlier write may show in the layout)",
     "C15": "a frame is accepted only if the stored 16 bits equal the CRC of the payload, for every stored value (0000 / FFFF included)",
     "C17": "public-key validation is against the curve of the key's generator whatever curve the point object carries (point stub with a different curve); loaders' hand-over contracts; genuine point objects of other same-size curves",
     "C19": "VerifyingKey.from_string / from_public_point hand-over contracts; private scalars written without leading zero bytes (SEC1/PKCS#8, DER/PEM) on all 17 curves in every tier",
